@@ -72,6 +72,17 @@ func TestC09Faults(t *testing.T) {
 		Gen: func(t *rapid.T) vh.ShimCase { return vh.GenShimCase(t, pr) }, Exec: exec})
 }
 
+// TestC09Locked: the same differential pairs with lock / unlock / close among the operations: a lock episode
+// changes nothing about what is hidden - in no-upstream mode the YSSHCA certificates stay hidden after the
+// unlock, with the mode off nothing becomes hidden by it.
+func TestC09Locked(t *testing.T) {
+	pr := profile
+	pr.Lock = true
+	vh.Run(t, vh.Spec[vh.ShimCase]{Property: "C09", Name: "TestC09Locked",
+		Rule: "TestC09NoUpstream's differential pairs with lock (several passphrases), unlock (right, wrong, near-miss passphrases) and close among the operations. Same model and oracle on both shims (while locked: empty listing, everything else refused, nothing changed); after the unlock the listings, signers and signatures are again exactly the model's - every YSSHCA certificate of the underlying agent hidden in no-upstream mode, none with the mode off. Non-trivial: as TestC09NoUpstream." + vh.ShimGenNote,
+		Gen: func(t *rapid.T) vh.ShimCase { return vh.GenShimCase(t, pr) }, Exec: exec})
+}
+
 // TestC09Many: many YSSHCA certificates in one underlying agent - all at once and renewed over time.
 func TestC09Many(t *testing.T) {
 	vh.Run(t, vh.Spec[vh.ShimCase]{Property: "C09", Name: "TestC09Many",
